@@ -133,7 +133,37 @@ def generate(ctx, escalate=False):
     return out
 
 
-SCENARIOS = ["idle", "obs", "blk", "blk0", "cli", "b2", "b2"]
+SCENARIOS = ["idle", "obs", "blk", "blk0", "cli", "b2", "b2", "osc", "osc"]
+
+
+def oscore_aimed(rng):
+    """an OSCORE option aimed at the server's security context of scenario osc: the right kid ("client") or a near miss, with a kid
+    context that is a CBOR byte string head in all its forms (short, 1/2/4/8 length bytes, cut short, announcing far more than follows)"""
+    n = rng.choice([0, 1, 1, 2, 5])
+    piv = G.rbytes(rng, n)
+    kid = rng.choice([b"client", b"client", b"client", b"clien", b"clientx", b"", b"server"])
+    c = rng.random()
+    if c < 0.25:
+        kc = b""
+    else:
+        ln = rng.choice([0, 1, 8, 23, 24, 255, 256, 65535, 65536, 2 ** 32 - 16, 2 ** 32 - 1, 2 ** 63, 2 ** 64 - 1, rng.randint(0, 40)])
+        head = bytes([0x40 | ln]) if ln < 24 and rng.random() < 0.8 else \
+            bytes([0x58, ln & 0xFF]) if ln < 256 and rng.random() < 0.7 else \
+            bytes([0x59]) + (ln & 0xFFFF).to_bytes(2, "big") if ln < 65536 and rng.random() < 0.7 else \
+            bytes([0x5a]) + (ln & 0xFFFFFFFF).to_bytes(4, "big") if ln < 2 ** 32 and rng.random() < 0.7 else \
+            bytes([0x5b]) + (ln & (2 ** 64 - 1)).to_bytes(8, "big")
+        if rng.random() < 0.15:
+            head = bytes([rng.choice([0x5c, 0x5f, 0x18, 0x98, 0xff, 0x1b])]) + head[1:]     # other major types / reserved additional info
+        body = G.rbytes(rng, min(ln, rng.choice([0, 1, 8, 16, 40])))
+        kc = head + body
+        if rng.random() < 0.3:
+            kc = kc[:rng.randint(1, len(kc))]
+        kc = kc[:200]
+    flags = n | 0x08 | (0x10 if kc else 0)
+    v = bytes([flags]) + piv + (bytes([len(kc)]) + kc if kc else b"") + kid
+    if rng.random() < 0.1:
+        v = v[:rng.randint(0, len(v))]
+    return v
 
 
 def proxyish(rng):
@@ -244,6 +274,14 @@ def targeted(rng, scen):
             opts.append((rng.choice([2, 10, 13, 29, 65001, 65535]), G.rbytes(rng, rng.randint(0, 4))))   # unknown, some critical
     if scen != "cli" and rng.random() < (0.5 if scen == "b2" else 0.12):
         return block2_get(rng, scen)
+    if scen == "osc" and rng.random() < 0.7:
+        # a "protected" request: code POST/FETCH (or anything), the aimed OSCORE option, a ciphertext of some length
+        opts = [(9, oscore_aimed(rng))]
+        if rng.random() < 0.2:
+            opts.append((rng.choice([6, 11, 23, 27, 60, 258]), uint()))
+        opts.sort(key=lambda o: o[0])
+        pl = G.rbytes(rng, rng.choice([0, 1, 7, 8, 9, 12, 24, 64]))
+        return G.encode("udp", rng.choice([0, 0, 1]), rng.choice([2, 2, 5, 1, 69, rng.randint(0, 255)]), mid, tok, opts, pl)
     if scen != "cli" and rng.random() < 0.12:
         # a request to be proxied: Proxy-Uri (35) as the last option, mostly without payload; sometimes Proxy-Scheme (39) + Uri-Host
         opts = [(35, proxyish(rng))] if rng.random() < 0.8 else [(3, rng.choice([b"myhost", b"other", b"", uriish(rng)])), (39, rng.choice([b"coap", b"http", b"", uriish(rng)]))]
